@@ -7,6 +7,5 @@ CONSTANTS
   DefectLateClose = FALSE
   DefectIgnoreDeadline = FALSE
   DefectDoubleNil = TRUE
-INVARIANTS TypeOK ShutdownWaits DeadlineBounds NothingAfterStop MisuseErrors NoAcceptAfterBegin
-PROPERTIES NoHandlerStartAfterNil AcceptOnlyWhileStarted
+INVARIANTS MisuseErrors
 CHECK_DEADLOCK FALSE
